@@ -34,11 +34,22 @@ fn field<'a>(parts: &[&'a str], key: &str) -> Vec<Vec<&'a str>> {
 }
 
 pub fn case_conc(parts: &[&str]) -> String {
+    case_threads(parts, false)
+}
+
+/// uconc: as conc, but thread 0 is the consumer-side agent: `cons=` lists its calls in order, an integer is
+/// read(limit), `u` is unblock(); results are printed as ATAgent [RRd n msgs | RUn 0|1 ..] / ATProd / ATStop / ATPanicked.
+pub fn case_uconc(parts: &[&str]) -> String {
+    case_threads(parts, true)
+}
+
+fn case_threads(parts: &[&str], agent: bool) -> String {
     let a: Vec<i64> = parts[0..4].iter().map(|p| p.parse::<i64>().expect("int")).collect();
     let r = Ring::new(a[0] as i32, a[1], a[2], a[3]);
     let one = |k: &str| field(parts, k).into_iter().next().unwrap_or_default();
     let pre = run_ops(&r, &one("pre"));
-    let limits: Vec<i64> = one("cons").iter().map(|x| x.parse().expect("int")).collect();
+    // None = unblock(), Some(limit) = read(limit)
+    let calls: Vec<Option<i64>> = one("cons").iter().map(|x| if *x == "u" { None } else { Some(x.parse().expect("int")) }).collect();
     let progs: Vec<Vec<(i64, i64, i64)>> = field(parts, "prod")
         .into_iter()
         .map(|ws| {
@@ -65,12 +76,21 @@ pub fn case_conc(parts: &[&str]) -> String {
         let ring = r.ring.clone();
         bodies.push(Box::new(move || {
             let mut out: Vec<String> = Vec::new();
-            for limit in limits {
-                let mut msgs: Vec<(i32, Vec<u8>)> = Vec::new();
-                let n = ring.read(|cmd, view| msgs.push((cmd as i32, view.as_slice().to_vec())), limit as i32);
-                out.push(format!("({}, {})", n, fmt_msgs(&msgs)));
+            for call in calls {
+                match call {
+                    Some(limit) => {
+                        let mut msgs: Vec<(i32, Vec<u8>)> = Vec::new();
+                        let n = ring.read(|cmd, view| msgs.push((cmd as i32, view.as_slice().to_vec())), limit as i32);
+                        if agent {
+                            out.push(format!("RRd {} {}", crate::fz(n as i64), fmt_msgs(&msgs)));
+                        } else {
+                            out.push(format!("({}, {})", n, fmt_msgs(&msgs)));
+                        }
+                    }
+                    None => out.push(format!("RUn {}", ring.unblock() as i32)),
+                }
             }
-            format!("TCons [{}]", out.join("; "))
+            format!("{} [{}]", if agent { "ATAgent" } else { "TCons" }, out.join("; "))
         }));
     }
     for prog in progs {
@@ -78,14 +98,12 @@ pub fn case_conc(parts: &[&str]) -> String {
         bodies.push(Box::new(move || {
             let mut out: Vec<String> = Vec::new();
             for (typ, len, k) in prog {
-                let bytes = payload(k, len.max(0) as usize);
-                let src_mem = AlignedBuffer::with_capacity((len.max(0) as i32) + 8);
+                let (src_mem, si) = crate::source_for(k, len);
                 let src = AtomicBuffer::from_aligned(&src_mem);
-                src.put_bytes(0, &bytes);
-                let res = ring.write(crate::cmd_of(typ), src, 0, len as i32);
+                let res = ring.write(crate::cmd_of(typ), src, si, len as i32);
                 out.push(fmt_write(Ok(res)));
             }
-            format!("TProd [{}]", out.join("; "))
+            format!("{} [{}]", if agent { "ATProd" } else { "TProd" }, out.join("; "))
         }));
     }
     let n = bodies.len();
@@ -96,7 +114,7 @@ pub fn case_conc(parts: &[&str]) -> String {
     let results: Vec<String> = (0..n)
         .map(|t| match &res.results[t] {
             Some(s) => s.clone(),
-            None => if res.panicked[t] { "TPanicked".to_string() } else { "TStop".to_string() },
+            None => format!("{}{}", if agent { "A" } else { "" }, if res.panicked[t] { "TPanicked" } else { "TStop" }),
         })
         .collect();
     let post = run_ops(&r, &one("post"));
